@@ -37,6 +37,18 @@ Proof.
   intros [n [k s]] Hm. specialize (Hok _ Hm). unfold sd_names_ok. cbn in *. destruct k; tauto.
 Qed.
 
+(* a well-formed tree blinds to a value without a "..." member: only placeholders have one *)
+Lemma has_dots_blind s : wf s -> has_dots (blind s) = false.
+Proof.
+  intros Hw. destruct s as [j | items | mems].
+  - inversion Hw as [j' Hs| |]; subst. destruct j; try reflexivity; contradiction.
+  - reflexivity.
+  - rewrite blind_obj. cbn [has_dots]. destruct (obj_get "..." (flat_map bmem mems)) as [v|] eqn:E; [|reflexivity]. exfalso.
+    apply obj_get_in in E. apply (in_map fst) in E. cbn [fst] in E. apply keys_bmems in E.
+    apply in_map_iff in E as [[n [k s]] [Hn Hin]]. cbn [fst] in Hn. subst n.
+    inversion Hw as [| | ? _ _ Hok]; subst. rewrite Forall_forall in Hok. specialize (Hok _ Hin). cbn in Hok. tauto.
+Qed.
+
 (* the last step: hiding a member / an element of the node itself *)
 Lemma disclose_here_mark t t' key salt :
   wf t -> mark [] key salt t = Some t' ->
@@ -49,6 +61,9 @@ Proof.
     destruct k as [| |]; cbn in Hm; try discriminate. injection Hm as <-.
     exists None, s. split; [cbn [T1a.target]; rewrite Ep, En; reflexivity|].
     rewrite !blind_arr. cbn [Issuer1.disclose_here]. rewrite Ep, nth_error_map', En.
+    assert (Hws : wf s).
+    { inversion Hw as [|? Hall _|]; subst. rewrite Forall_forall in Hall. apply nth_error_In in En. exact (Hall _ En). }
+    replace (has_dots (bitem (IPlain, s))) with false by (symmetry; exact (has_dots_blind s Hws)).
     f_equal. f_equal. f_equal.
     change (placeholder_json (d_digest (mk_disc salt None (bitem (IPlain, s))))) with (bitem (IHid salt, s)).
     apply list_set_map.
